@@ -243,6 +243,10 @@ structure Quirks where
       is None raises `FortranSyntaxError` (after removing the block's table) instead of the
       `AttributeError` of the pinned code -/
   startNameNoneSyntax : Bool := false
+  /-- `Program.match` handles the `NoMatchError` of a program unit INSIDE its loop: it matches
+      a `Main_Program0` there, keeps the units collected so far and goes on with the rest of
+      the input (the pinned code falls back once, drops what it had and stops reading) -/
+  programContinues : Bool := false
   deriving Repr, DecidableEq, Inhabited
 
 structure Table where
@@ -878,6 +882,11 @@ def main0Match (env : Env) (f : F) (fuel : Nat) (cfg : Cfg) (scope : Name) (st :
 inductive PRes where
   | done (rc : List Tree)
   | fail (rc : List Tree) (e : Exc)
+  /-- `return None` (repaired variant: the `Main_Program0` attempt failed too) -/
+  | retNone
+
+/-- `BlockBase.match(Main_Program0, [], None, reader)` -/
+def fallbackCfg (main0 : Cls) : Cfg := { start := some main0, subs := [], end_ := none }
 
 /-- `if obj: content.append(obj)` -/
 def pushTree (o : Outcome) (rc : List Tree) : List Tree :=
@@ -885,31 +894,53 @@ def pushTree (o : Outcome) (rc : List Tree) : List Tree :=
   | .tree t => t :: rc
   | _ => rc
 
+inductive UnitStep where
+  | go (rc : List Tree)
+  | stop (r : PRes)
+
+/-- `obj = Program_Unit(reader)` with (repaired variant) its `except NoMatchError` handler -/
+def unitStep (env : Env) (f : F) (fuel : Nat) (unit main0 : Cls) (rc : List Tree) (st : St) :
+    UnitStep × St :=
+  match f unit st with
+  | (.raise e, s1) =>
+    if e == .noMatch && env.tbl.quirks.programContinues then
+      match blockMatch env f fuel (fallbackCfg main0) (s1.ev (.ghost .fallback)) with
+      | (.tuple c0, s2) => (.go (c0.reverse ++ rc), s2)
+      | (.none, s2) => (.stop .retNone, ghostIf (!rc.isEmpty) .progDrop s2)
+      | (.raise e2, s2) =>
+        (.stop (.fail rc e2), ghostIf (e2 == .noMatch && !rc.isEmpty) .progDrop s2)
+    else (.stop (.fail rc e), s1)
+  | (o, s1) => (.go (pushTree o rc), s1)
+
 /-- the `while True` loop of `Program.match` -/
-def programLoop (env : Env) (f : F) (unit : Cls) (fuel : Nat) : Nat → List Tree → St → PRes × St
+def programLoop (env : Env) (f : F) (unit main0 : Cls) (fuel : Nat) :
+    Nat → List Tree → St → PRes × St
   | 0, rc, st => (.fail rc .outOfFuel, st)
   | k + 1, rc, st =>
-    match f unit st with
-    | (.raise e, s1) => (.fail rc e, s1)
-    | (o, s1) =>
-      match addCID env fuel (pushTree o rc) s1 with
-      | (.error e, s2) => (.fail (pushTree o rc) e, s2)
+    match unitStep env f fuel unit main0 rc st with
+    | (.stop r, s1) => (r, s1)
+    | (.go rc1, s1) =>
+      match addCID env fuel rc1 s1 with
+      | (.error e, s2) => (.fail rc1 e, s2)
       | (.ok rc2, s2) =>
         match s2.get with
         | (none, s3) => (.done rc2, s3)
-        | (some it, s3) => programLoop env f unit fuel k rc2 (s3.put it)
+        | (some it, s3) => programLoop env f unit main0 fuel k rc2 (s3.put it)
 
 /-- `Program.match` -/
 def programMatch (env : Env) (f : F) (fuel : Nat) (unit main0 : Cls) (st : St) : MRes × St :=
   match addCID env fuel [] st with
   | (.error e, s1) => (.raise e, s1)
   | (.ok rc0, s1) =>
-    match programLoop env f unit fuel fuel rc0 s1 with
+    match programLoop env f unit main0 fuel fuel rc0 s1 with
     | (.done rc, s2) => (.tuple rc.reverse, s2)
-    | (.fail rc .noMatch, s2) =>
-      blockMatch env f fuel { start := some main0, subs := [], end_ := none }
-        (ghostIf (!rc.isEmpty) .progDrop (s2.ev (.ghost .fallback)))
-    | (.fail _ e, s2) => (.raise e, s2)
+    | (.retNone, s2) => (.none, s2)
+    | (.fail rc e, s2) =>
+      if e == .noMatch && !env.tbl.quirks.programContinues then
+        -- pinned code: `except NoMatchError:` around the whole loop
+        blockMatch env f fuel (fallbackCfg main0)
+          (ghostIf (!rc.isEmpty) .progDrop (s2.ev (.ghost .fallback)))
+      else (.raise e, s2)
 
 /-! ## `Base.__new__` -/
 
